@@ -177,6 +177,17 @@ class SegWorld(World):
         fetch_name = '/' + '/'.join(sc['prefix'])
         if sc.get('fetch_from_seg') is not None:
             fetch_name = enc.Name.to_bytes(self.obj_name + [seg_comp(sc['fetch_from_seg'])])
+        form = sc.get('name_form')
+        if form and sc.get('fetch_from_seg') is None:
+            comps = [bytes(c) for c in self.prefix]
+            if form == 'list':
+                fetch_name = list(comps)
+            elif form == 'wire':
+                fetch_name = bytearray(enc.Name.to_bytes(comps))
+            elif form == 'iter':
+                fetch_name = iter(comps)                # NonStrictName: any iterable of components, also a one-shot one
+            elif form == 'gen':
+                fetch_name = (c for c in comps)
         try:
             async for content in segment_fetcher(self.app, fetch_name, timeout=sc['lifetime'],
                                                  retry_times=sc['retry_times'], validator=validator,
@@ -439,6 +450,7 @@ def _scenario(rng, seed, extra, nseg, discovery, loss, invalid, R, life, keys):
             'final_on': rng.choice(['last', 'all', 'all', 'early', 'first']) if nseg >= 2 else rng.choice(['last', 'all']),
             'discovery': discovery if nseg < 2 or rng.random() < 0.7 else 0, 'loss': loss, 'invalid': invalid,
             'retry_times': R, 'lifetime': life, 'mbf': rng.random() < 0.7,
+            'name_form': rng.choice([None, None, None, 'list', 'wire', 'iter', 'gen']),
             'stored_beyond': rng.choice([0, 0, 0, 1, 3]) if nseg else 0,
             'ops': [{'seg': k} for k in keys]}
 
